@@ -687,7 +687,7 @@ fn kinds_for(prop: &str) -> Vec<&'static str> {
         "C04" => vec!["sma", "ema", "alma"],
         "C05" => vec!["rsi", "my_rsi"], "C06" => vec!["cti", "net", "center_of_gravity"],
         "C07" => vec!["rsi", "my_rsi", "hl_normalizer", "cti", "net", "tanh", "pfe", "laguerre_rsi", "binary_entropy", "eft", "eft_ss", "welford_online", "welford_rolling", "vsct", "sma", "alma", "gte", "lte", "drawdown", "center_of_gravity"],
-        "C09" => vec!["ema", "laguerre_filter", "super_smoother", "roofing_filter", "cyber_cycle", "trend_flex", "re_flex", "laguerre_rsi", "eft"],
+        "C09" => vec!["ema", "laguerre_filter", "super_smoother", "roofing_filter", "cyber_cycle", "trend_flex", "re_flex", "laguerre_rsi", "eft", "eft_ss"],
         "C10" => vec!["sma", "ema", "alma", "cumulative", "laguerre_filter", "super_smoother", "roofing_filter", "cyber_cycle"],
         "C11" => vec!["super_smoother", "roofing_filter", "laguerre_filter", "laguerre_rsi", "cyber_cycle", "trend_flex", "re_flex", "eft", "pfe"],
         "C12" => vec!["hl_normalizer", "vsct", "cti", "net", "eft", "rsi", "my_rsi", "laguerre_rsi", "vst", "roc", "center_of_gravity", "binary_entropy", "trend_flex", "re_flex", "ln_return", "drawdown",
@@ -737,6 +737,9 @@ fn search(prop: &str, s: &mut Search) -> (usize, Option<Case>) {
             "C10" => { c.stream2 = gen_stream(&mut s.rng, len, false); c.a = s.rng.pick(&[0.0, 1.0, -1.0, 2.0, 0.5]); c.b = s.rng.pick(&[0.0, 1.0, -2.0, 0.5]); },
             _ => {}
         }
+        // C11: movement, a long exactly constant stretch (recursions settle bit-exactly after about 5N+3 equal values and guarded ratios become
+        // 0/0), then movement again - bookkeeping skipped on the flat stretch shows only afterwards
+        if prop == "C11" && c.inner == "echo" && s.rng.below(8) == 0 { let c0 = s.rng.pick(&[1.0, 2.5, -1.5]); let mut st: Vec<f64> = c.stream.iter().take(6).cloned().collect(); for _ in 0..130 { st.push(c0); } st.extend(gen_stream(&mut s.rng, 8, false)); c.stream = st; }
         // C08: readiness must not revert however long the input stays constant (recursions that converge bit-exactly make a guarded ratio 0/0
         // only after dozens of equal values)
         if prop == "C08" && s.rng.below(6) == 0 { let c0 = *c.stream.last().unwrap(); let c1 = s.rng.pick(&[c0, c0, 1.0, 0.0]); let c1 = if positive_only(k) || c.inner == "ln_return" { c1.abs() + 0.5 } else { c1 }; for _ in 0..140 { c.stream.push(c1); } }
